@@ -1376,6 +1376,41 @@ def pipeline_rules(repo, chk):
         I.setattr_(m, "c7", Con(add(pw(x, 2.0), mul(y, p_))))
         ref = {"c4": sz / sy + sq, "c6": sx * sz - sy, "c7": sx ** 2 + sy * sp_}
         check("x used again after its release", m, leaves, ref, values)
+        # ONE expression object registered twice under DIFFERENT leaf numberings: a condition shared by two piecewise constraints whose branches mention
+        # different leaves first, and an expression used as a plain constraint, removed, and used again as a branch of a piecewise constraint.  The
+        # reverse-Polish program refers to positions in the leaf list of the constraint being registered: it must be compiled for each registration.
+        shared_cond = ineq(sub(z, y), ub=0.0)
+        ce8, ce9 = CE(), CE()
+        call(ce8, "add_condition", shared_cond, add(mul(x, p_), mul(y, z)))
+        call(ce8, "add_final_expr", sub(x, mul(2.0, z)))
+        call(ce9, "add_condition", shared_cond, sub(mul(q, q), mul(z, y)))
+        call(ce9, "add_final_expr", add(q, y))
+        I.delattr_(m, "c6")
+        I.delattr_(m, "c7")
+        ref.pop("c6")
+        ref.pop("c7")
+        I.setattr_(m, "c8", Con(ce8))
+        I.setattr_(m, "c9", Con(ce9))
+        ref["c8"] = [(sz - sy <= 0, sx * sp_ + sy * sz), (True, sx - 2 * sz)]
+        ref["c9"] = [(sz - sy <= 0, sq * sq - sz * sy), (True, sq + sy)]
+        check("a condition object shared by two piecewise constraints (branch taken)", m, leaves, ref, values)
+        setv(leaves, values, z=5.0)
+        check("a condition object shared by two piecewise constraints (final branch)", m, leaves, ref, values)
+        setv(leaves, values, z=2.0)
+        e_sh = add(mul(x, z), q)
+        I.delattr_(m, "c4")
+        ref.pop("c4")
+        I.setattr_(m, "c10", Con(e_sh))
+        ref["c10"] = sx * sz + sq
+        check("an expression used as a plain constraint", m, leaves, ref, values)
+        I.delattr_(m, "c10")
+        ref.pop("c10")
+        ce11 = CE()
+        call(ce11, "add_condition", ineq(mul(y, p_), ub=100.0), e_sh)
+        call(ce11, "add_final_expr", sub(y, x))
+        I.setattr_(m, "c11", Con(ce11))
+        ref["c11"] = [(sy * sp_ <= 100, sx * sz + sq), (True, sy - sx)]
+        check("the same expression object re-used as a branch of a piecewise constraint", m, leaves, ref, values)
         left = {k: len(v) for k, v in ev.leaves.items()}
         floats_needed = len(I.getattr_(m, "_float_cfloat_map"))
         chk.expect(left["var"] == 3 and left["param"] == 2 and left["float"] == floats_needed, "R-C15-12", "model history: the evaluator holds exactly the leaves the remaining constraints refer to", loc(mfn),
@@ -1387,7 +1422,7 @@ def pipeline_rules(repo, chk):
             chk.bad("R-C15-12", "model history: the evaluator protocol is respected", loc(mfn), found="%s (line %s)" % (e, e.lineno))
         else:
             raise ExtractError("R-C15-12: the interpreted model code raised %s (line %s)" % (e, e.lineno))
-    chk.floor("R-C15-12", 11)
+    chk.floor("R-C15-12", 15)
 
 
 def dag_rules(repo, chk, rpn_info):
@@ -1471,6 +1506,9 @@ def dag_rules(repo, chk, rpn_info):
     chk.floor("R-C15-8", 8 + 3 + 1 + 7 + 1)
 
 WITNESSES = [
+    dict(name="rpn-program-cached-per-expression-object", file=EXPR, old="    def get_rpn(self, leaf_ndx_map):\n        rpn_map = dict()\n        for oper in self.operators():\n            oper.get_rpn(rpn_map, leaf_ndx_map)\n        return rpn_map[self.last_node()]\n",
+         new="    def get_rpn(self, leaf_ndx_map):\n        if id(self) in _RPN_CACHE:\n            return _RPN_CACHE[id(self)]\n        rpn_map = dict()\n        for oper in self.operators():\n            oper.get_rpn(rpn_map, leaf_ndx_map)\n        _RPN_CACHE[id(self)] = rpn_map[self.last_node()]\n        return _RPN_CACHE[id(self)]\n",
+         also=[("class expression(ExpressionBase):\n", "_RPN_CACHE = {}\n\n\nclass expression(ExpressionBase):\n")], rule="R-C15-12"),
     dict(name="conditional-constraint-jacobian-of-the-wrong-branch", file=AML, old="                jac = derivs[i][v]\n", new="                jac = derivs[0][v]\n", rule="R-C15-12"),
     dict(name="removed-constraint-keeps-its-variables", file=AML, old="        for v in self._vars_referenced_by_con[con]:\n            self._decrement_var(v)\n        for p in self._params_referenced_by_con[con]:\n            self._decrement_param(p)\n        for f in self._floats_referenced_by_con[con]:\n            self._decrement_float(f)\n        del self._vars_referenced_by_con[con]\n        del self._params_referenced_by_con[con]\n        del self._floats_referenced_by_con[con]\n\n    def evaluate_residuals",
          new="        for p in self._params_referenced_by_con[con]:\n            self._decrement_param(p)\n        for f in self._floats_referenced_by_con[con]:\n            self._decrement_float(f)\n        del self._vars_referenced_by_con[con]\n        del self._params_referenced_by_con[con]\n        del self._floats_referenced_by_con[con]\n\n    def evaluate_residuals", rule="R-C15-12"),
